@@ -262,12 +262,14 @@ func vKindFrame(k int, id uint32, digit byte, trailer bool, arg uint32) []byte {
 		return vFrame(0x0, 0x0, id, []byte{vU8()})
 	case fkDataES:
 		return vFrame(0x0, 0x1, id, []byte{vU8()})
+	// RST_STREAM, WINDOW_UPDATE and PRIORITY define no flags: whatever bits are
+	// set must be ignored (RFC 7540 4.1)
 	case fkRst:
-		return vFrame(0x3, 0x0, id, []byte{byte(arg >> 24), byte(arg >> 16), byte(arg >> 8), byte(arg)})
+		return vFrame(0x3, vU8(), id, []byte{byte(arg >> 24), byte(arg >> 16), byte(arg >> 8), byte(arg)})
 	case fkWU:
-		return vFrame(0x8, 0x0, id, []byte{byte(arg >> 24), byte(arg >> 16), byte(arg >> 8), byte(arg)})
+		return vFrame(0x8, vU8(), id, []byte{byte(arg >> 24), byte(arg >> 16), byte(arg >> 8), byte(arg)})
 	case fkPrio:
-		return vFrame(0x2, 0x0, id, []byte{byte(arg >> 24), byte(arg >> 16), byte(arg >> 8), byte(arg), vU8()})
+		return vFrame(0x2, vU8(), id, []byte{byte(arg >> 24), byte(arg >> 16), byte(arg >> 8), byte(arg), vU8()})
 	case fkPing0:
 		return vFrame(0x6, 0x0, 0, []byte{1, 2, 3, 4, 5, 6, 7, 8})
 	case fkSettings0:
